@@ -24,6 +24,9 @@ BlockCalls(ns, Handled) ==
   IF ns = << >> THEN << >>
   ELSE LET n == Head(ns)
            here == IF n.k = "call" THEN << n.f >>
+                   (* "if_both": the same statements in the accept and in the reject arm of one `if` *)
+                   ELSE IF n.k = "block" /\ n.ctx = "if_both"
+                   THEN (IF "IfAccept" \in Handled THEN BlockCalls(n.items, Handled) ELSE << >>) \o (IF "IfReject" \in Handled THEN BlockCalls(n.items, Handled) ELSE << >>)
                    ELSE IF n.k = "block" /\ CtxKind(n.ctx) \in Handled THEN BlockCalls(n.items, Handled)
                    ELSE << >>
        IN here \o BlockCalls(Tail(ns), Handled)
@@ -34,6 +37,7 @@ ArenaCalls(S, ns) ==
   IF ns = << >> THEN << >>
   ELSE LET n == Head(ns)
            here == IF n.k = "call" THEN (IF Fn(S, n.f).ret THEN << n.f >> ELSE << >>)
+                   ELSE IF n.k = "block" /\ n.ctx = "if_both" THEN ArenaCalls(S, n.items) \o ArenaCalls(S, n.items)
                    ELSE IF n.k = "block" THEN ArenaCalls(S, n.items)
                    ELSE << >>
        IN here \o ArenaCalls(S, Tail(ns))
